@@ -490,8 +490,8 @@ impl Check for C09 {
     }
     fn cases(&self, tier: Tier) -> u64 {
         match tier {
-            Tier::Quick => 120_000,
-            Tier::Thorough => 4_000_000,
+            Tier::Quick => 1_000_000,
+            Tier::Thorough => 30_000_000,
         }
     }
     fn both_profiles(&self) -> bool {
